@@ -58,7 +58,9 @@ func (t TermLocations) MergeOverlapping() {
 		} else if lastTl != nil && tl != nil {
 			if lastTl.Overlaps(tl) {
 				// ok merge this with previous
-				lastTl.End = tl.End
+				if tl.End > lastTl.End {
+					lastTl.End = tl.End
+				}
 				t[i] = nil
 			}
 		}
